@@ -12,13 +12,13 @@ Lemma widths_of_skipn n a : widths_of (skipn n a) = skipn n (widths_of a).
 Proof. unfold widths_of. symmetry. apply skipn_map. Qed.
 
 (* computed width facts about the specification programs *)
-Definition layouts : list klayout := [KL64; KL32; KL8].
+Definition layouts : list klayout := [KL64; KL32; KL8; KL32BE].
 Lemma dec_widths : forallb (fun L => nat_list_eqb (out_widths mem_widths (PRun (dec_prog L))) (int_widths L)) layouts = true.
 Proof. vm_compute. reflexivity. Qed.
 Lemma round_widths : forallb (fun L => forallb (fun j => nat_list_eqb (out_widths (int_widths L) (PRun (round_prog L j))) (int_widths L)) (seq 0 12)) layouts = true.
 Proof. vm_compute. reflexivity. Qed.
 
-Lemma in_layouts L : In L layouts. Proof. destruct L; cbn; auto. Qed.
+Lemma in_layouts L : In L layouts. Proof. destruct L; cbn; auto 6. Qed.
 
 Lemma dec_widths_ok L v : widths_of v = mem_widths -> widths_of (run BoolAlg v (dec_prog L)) = int_widths L.
 Proof.
